@@ -1,7 +1,7 @@
 use std::{borrow::Cow, fmt::Debug, io::Write, sync::Arc};
 
 use quick_xml::{
-    events::{attributes::Attribute, BytesStart, Event},
+    events::{attributes::Attribute, BytesStart, BytesText, Event},
     name::{QName, ResolveResult},
     ElementWriter, NsReader, Writer,
 };
@@ -215,13 +215,9 @@ where
     fn write_data<W: Write>(&self, writer: &mut Writer<W>) -> Result<(), WriteError> {
         writer
             .create_element(A::TAG)
-            .write_inner_content(|writer| {
-                writer
-                    .get_mut()
-                    .write_all(self.as_ref().as_bytes())
-                    .map_err(|err| WriteError::Other(err.into()))
-            })
+            .write_text_content(BytesText::new(self.as_ref()))
             .map(|_| ())
+            .map_err(WriteError::from)
     }
 }
 
@@ -244,13 +240,9 @@ where
     fn write_data<W: Write>(&self, writer: &mut Writer<W>) -> Result<(), WriteError> {
         writer
             .create_element(A::TAG)
-            .write_inner_content(|writer| {
-                writer
-                    .get_mut()
-                    .write_all(self.as_ref().as_bytes())
-                    .map_err(|err| WriteError::Other(err.into()))
-            })
+            .write_text_content(BytesText::new(self.as_ref()))
             .map(|_| ())
+            .map_err(WriteError::from)
     }
 }
 
